@@ -742,17 +742,18 @@ META = {
         "(c21_public_retry); (3) 'public converges' as written is REFUTED by a vm_compute witness (merged retry executes "
         "deletes before inserts) and proved for histories whose merged batches commute, with a syntactic sufficient condition "
         "(per-table statement order preserved) (c21_public_converges_if_commuting, c21_commuting_if_order_preserved); "
-        "(4) recovery at MAX_TRIES makes public = private (c21_converges_after_recover) but the write after it diverges "
-        "again because the stale queue is replayed (REFUTED witness); the model of the proposed fix re-synchronises "
-        "(c21_recover_fixed_resyncs). The model is tied to rundb.py/workflow_db_mgr.py by differential runs of the real "
+        "(4) recovery at MAX_TRIES re-synchronises (public = private, queues empty, n_tries 0: c21_converges_after_recover), "
+        "the write after it converges (c21_recovered_write_converges) and (3) holds across recoveries for every MAX_TRIES "
+        "(histories contain health checks); the former stale-queue replay (fixed in /repo fc5ba1e) is kept as a regression "
+        "witness. The model is tied to rundb.py/workflow_db_mgr.py by differential runs of the real "
         "WorkflowDatabaseManager on sqlite files (contents of both files, n_tries and queue sizes compared inside Coq after "
         "every call) with faults injected at statement k / row j / commit and real EXCLUSIVE locks; the oracle checks "
         "atomicity, retry and convergence directly on the files."),
     "level_note": (
         "Hand model; SQLite's transaction/rollback and single-row statement semantics are modelled (apply_tbl, exec_loop) and "
         "validated only by the differential run; updates assigning primary-key columns (which could fail with IntegrityError) "
-        "and raw-SQL update items are outside the modelled fragment (oracle-checked only). Two open findings (merged-retry "
-        "reordering; stale queue replayed after recovery) are listed in known_findings.d/C21.json."),
+        "and raw-SQL update items are outside the modelled fragment (oracle-checked only). One open finding (merged-retry "
+        "reordering) and one fixed finding (stale queue replayed after recovery, fc5ba1e) are listed in known_findings.d/C21.json."),
     "technique": "Coq proof (invariants over histories, per-table decomposition) + in-Coq differential correspondence with "
                  "fault injection on real sqlite files + file-level oracle",
     "design_ref": "5/C21",
